@@ -83,10 +83,9 @@ def r2(ctx):
                       [site_desc(fa, ix[0])], key="C03|C03.R2|byte_offset_in_changeset|roots provenance")
 
 
-def r2b(ctx):
+def r2b(ctx, P=P, rule="C03.R2"):
     """placement of a received block: the short-cut 'the block goes at the current end of the data'
     is taken exactly for the block whose index equals the current length"""
-    rule = "C03.R2"
     fa = ctx.fn(MT_BYTE_OFFSET_CS)
     if not need(ctx, P, rule, MT_BYTE_OFFSET_CS, fa):
         return
@@ -95,7 +94,7 @@ def r2b(ctx):
         ops = c09.cmp_facts(ctx, fa, early[0], lambda a: a == "self.length", lambda b: b == "hypercore_index")
         ctx.check(P, rule, "a received block is placed at the end of the data only when its index is the current length", ops == ["Eq"], "self.length == hypercore_index => self.byte_length",
                   "byte_offset_in_changeset returns the current byte length whenever self.length %s hypercore_index: a block beyond the current length is written at the wrong data offset (held, but unreadable or wrong bytes)" % ops,
-                  [loc(fa, early[0])], key="C03|C03.R2|byte_offset_in_changeset|append position short-cut")
+                  [loc(fa, early[0])], key="%s|%s|byte_offset_in_changeset|append position short-cut" % (P, rule))
 
 
 def r3(ctx):
@@ -206,6 +205,37 @@ def r5(ctx):
             ctx.check(P, rule, "the reader connects an upgrade starting at the last root it has", len(sk) >= 2 and not bad, "%d seek sites, each to the index of changeset.roots' last element" % len(sk),
                       "verify_upgrade seeks to %s: the climb that merges the existing roots (or the walk over the additional nodes) does not start at the last root, while the writer's proof is built from the last leaf of the requester's tree" % [term_str(fv.arg_origin(s, 1))[:70] for s in bad],
                       [site_desc(fv, s) for s in bad], key="C03|C03.R5|verify_upgrade|climb start")
+    if fv is not None:
+        # the walk over the additional nodes that are not right-hand siblings of the climb: the writer
+        # lists the remaining roots from left to right, each smaller than the one before; from a root
+        # just appended the next one therefore lies under its right-hand neighbour of the same size:
+        # the reader moves to `sibling()` and descends with `left_child()` until it meets the node.
+        # Any other move (next_tree: the first LEAF behind the root; parent; seek) finds the next
+        # root only when it is a single block, and refuses honest partial upgrades otherwise.
+        NAV = ("sibling", "next_tree", "prev_tree", "parent", "left_child", "right_child", "seek", "next")
+        def nav(fx, s_):
+            c = callee_of(fx.blocks[s_].term) or ""
+            return c.split("::")[-1] if c.startswith("flat_tree::Iterator::") or "flat_tree::iterator::Iterator" in c else None
+        lps = fv.loops()
+        desc = [s_ for s_, _ in fv.calls() if nav(fv, s_) == "left_child"]
+        outer = None
+        for s_ in desc:
+            ls = sorted([(h_, b_) for h_, b_, _ in lps if s_ in b_], key=lambda hb: len(hb[1]))
+            if len(ls) >= 2:
+                outer = ls[1]
+        if need(ctx, P, rule, "verify_upgrade: the descent over the additional nodes (left_child in a nested loop)", outer):
+            h_, body_ = outer
+            ap = [s_ for s_ in sites(fv, CS_APPEND_ROOT) if s_ in body_]
+            moves = [(s_, nav(fv, s_)) for s_, _ in fv.calls() if s_ in body_ and nav(fv, s_) in NAV]
+            other = sorted(set(m for _, m in moves) - {"left_child", "sibling"})
+            sib = [s_ for s_, m in moves if m == "sibling"]
+            # every way from append_root back round the loop passes a sibling() move
+            covered = bool(ap) and bool(sib) and all(not fv.can_reach(a_, h_, avoiding=set(sib)) for a_ in ap)
+            ctx.check(P, rule, "after an additional root the reader moves to its right-hand neighbour and descends left", covered and not other,
+                      "in the loop over the remaining additional nodes: left_child() to search, append_root, then sibling()",
+                      "verify_upgrade walks the remaining additional nodes with %s: the writer lists them left to right in decreasing size, so the next root lies under the sibling of the one just appended; %s reaches it only when it is a single block, and an honest partial upgrade whose later additional roots span several blocks is refused ('Unexpected node')" % (
+                          sorted(set(m for _, m in moves)), ("the move(s) %s" % other) if other else "without sibling() after append_root the walk"),
+                      [site_desc(fv, s_) for s_, m in moves if m not in ("left_child",)], key="C03|C03.R5|verify_upgrade|walk over additional roots")
     for nm in (MT + "::upgrade_proof", MT + "::additional_upgrade_proof"):
         fw = ctx.fn(nm)
         if not need(ctx, P, rule, nm, fw):
@@ -281,6 +311,6 @@ def r9(ctx):
 RULES = [r1, r2, r2b, r3, r4, r5, r6, r7, r8, r9]
 EXPLANATION = ("C03 (honest proofs accepted, replicas converge): acceptance and convergence depend on flat-tree arithmetic that no structural rule captures; decided narrowly: create_proof reads the value for "
                "the proof's own block index, returns Ok(None) without building a proof when that block is not held, and passes request and proof parts through unchanged (R1); byte_offset_in_changeset sums "
-               "root lengths over the same root list in which it searched the position, and its panic-capable constructs are discharged (R2); sibling agreement: upgrade_proof / additional_upgrade_proof share branch conditions and flat-tree navigation except for the sub-proof inclusion, and verify_tree's two climbing loops are the same walk (R3); writer (block_and_seek_proof, seek_proof) and reader (verify_tree) climb sibling-then-parent once per level, the reader shifting iter.sibling() and recomputing at iter.parent() (R4); writer and reader connect an upgrade to the existing tree from the same place — the writer from the requester's last leaf (from - 2), the reader from the last root of the changeset (R5); an accepted proof is logged before it is committed in memory and flushed after the commit, so that it survives replica reopen (R6, the ordering clauses of C02.R2), and every logged entry — also one with tree nodes but no upgrade, as a block fetched at the current length produces — is re-applied on open (R7, the replay clauses of C01.R2); where an upgrade proof embeds the block / seek sub-proof, block_and_seek_proof is called with root = the iterator position tested to contain its seek_root (R8).")
+               "root lengths over the same root list in which it searched the position, and its panic-capable constructs are discharged (R2); sibling agreement: upgrade_proof / additional_upgrade_proof share branch conditions and flat-tree navigation except for the sub-proof inclusion, and verify_tree's two climbing loops are the same walk (R3); writer (block_and_seek_proof, seek_proof) and reader (verify_tree) climb sibling-then-parent once per level, the reader shifting iter.sibling() and recomputing at iter.parent() (R4); writer and reader connect an upgrade to the existing tree from the same place — the writer from the requester's last leaf (from - 2), the reader from the last root of the changeset (R5); an accepted proof is logged before it is committed in memory and flushed after the commit, so that it survives replica reopen (R6, the ordering clauses of C02.R2), and every logged entry — also one with tree nodes but no upgrade, as a block fetched at the current length produces — is re-applied on open (R7, the replay clauses of C01.R2); where an upgrade proof embeds the block / seek sub-proof, block_and_seek_proof is called with root = the iterator position tested to contain its seek_root (R8). R5 also holds the reader's walk over the remaining additional roots to `left_child` (search) and `sibling` (after each appended root), the only moves that find a following root of more than one block.")
 NOT_DECIDED = ("that any honest proof verifies; agreement of node counts with missing_nodes; partial upgrades; convergence of lengths and bytes; request orders; replica reopen — the bulk of the property is not decided statically.")
 ASSUMPTIONS = ["flat_tree index arithmetic is correct"]
